@@ -7,7 +7,7 @@ they decide that each method reports what it did and delegates to the right
 primitive with the right constants."""
 import ast
 
-from .framework import rule, Ob, fmt_trace, sql_events, call_events, values_in, deep_values
+from .framework import rule, Ob, fmt_trace, sql_events, call_events, values_in, deep_values, real_call
 from .model import AnalysisError, walk_shallow, dotted
 from .values import V, C
 from .rules_lock import _is_row_write
@@ -88,7 +88,7 @@ def b1(ctx):
         if p.kind != 'return':
             continue
         n += 1
-        caught = any(e.kind == 'CATCH' and e.d['typ'] == 'KeyError' for e in p.trace)
+        caught = any(e.kind in ('CATCH', 'SUPPRESSED') and e.d['typ'] == 'KeyError' for e in p.trace)
         rv = p.outcome[1]
         good = (caught and rv.is_const and rv.val is False) or \
             (not caught and rv.k == 'ret' and any(q.endswith('__delitem__') for q in rv.a[1]))
@@ -293,39 +293,68 @@ def b3(ctx):
 @rule('B5', floor=3, title='setting-name prefixes: key[n:] strips exactly the prefix tested with startswith')
 def b5(ctx):
     obs = []
+
+    def lit(node, consts):
+        if isinstance(node, ast.Constant) and isinstance(node.value, str):
+            return node.value
+        if isinstance(node, ast.Name) and node.id in consts:
+            return consts[node.id]
+        return None
+
+    def fold_int(node, consts):
+        if isinstance(node, ast.Constant) and isinstance(node.value, int):
+            return node.value
+        if isinstance(node, ast.Call) and isinstance(node.func, ast.Name) and node.func.id == 'len' and len(node.args) == 1:
+            v = lit(node.args[0], consts)
+            return len(v) if v is not None else None
+        if isinstance(node, ast.Name) and isinstance(consts.get(node.id), int):
+            return consts[node.id]
+        return None
     for f in ctx.prog.all_funcs():
         if f.module != 'core':
             continue
-        # (test node, guarded nodes)
+        consts = {}
+        for n in walk_shallow(f.node):
+            if isinstance(n, ast.Assign) and len(n.targets) == 1 and isinstance(n.targets[0], ast.Name):
+                if isinstance(n.value, ast.Constant) and isinstance(n.value.value, (str, int)):
+                    consts[n.targets[0].id] = n.value.value
+        for n in walk_shallow(f.node):
+            if isinstance(n, ast.Assign) and len(n.targets) == 1 and isinstance(n.targets[0], ast.Name):
+                v = fold_int(n.value, consts)
+                if v is not None and not isinstance(n.value, ast.Constant):
+                    consts[n.targets[0].id] = v
         regions = []
         for n in ast.walk(f.node):
             if isinstance(n, ast.If):
                 regions.append((n.test, n.body))
-            if isinstance(n, ast.DictComp) or isinstance(n, ast.ListComp) or isinstance(n, ast.GeneratorExp):
+            if isinstance(n, (ast.DictComp, ast.ListComp, ast.GeneratorExp, ast.SetComp)):
                 for g in n.generators:
                     for cond in g.ifs:
                         elts = [n.key, n.value] if isinstance(n, ast.DictComp) else [n.elt]
                         regions.append((cond, elts))
         for test, body in regions:
             if not (isinstance(test, ast.Call) and isinstance(test.func, ast.Attribute) and test.func.attr == 'startswith'
-                    and test.args and isinstance(test.args[0], ast.Constant) and isinstance(test.args[0].value, str)):
+                    and test.args):
+                continue
+            prefix = lit(test.args[0], consts)
+            if prefix is None:
                 continue
             var = ast.unparse(test.func.value)
-            prefix = test.args[0].value
             for b in body:
                 for m in ast.walk(b):
                     if isinstance(m, ast.Subscript) and ast.unparse(m.value) == var and isinstance(m.slice, ast.Slice) \
-                            and m.slice.upper is None and isinstance(m.slice.lower, ast.Constant):
+                            and m.slice.upper is None and m.slice.lower is not None:
+                        n_ = fold_int(m.slice.lower, consts)
                         key = '%s/%s' % (f.qual, prefix)
                         i = 1
                         k2 = key
                         while any(o.key == k2 for o in obs):
                             i += 1
                             k2 = '%s#%d' % (key, i)
-                        obs.append(Ob('B5', k2, m.slice.lower.value == len(prefix),
-                                      'after `%s.startswith(%r)` the code strips %d characters with %s[%d:]: the '
-                                      'PRAGMA / Disk attribute name is mangled, so the stored setting is never applied'
-                                      % (var, prefix, m.slice.lower.value, var, m.slice.lower.value), f.loc(m)))
+                        obs.append(Ob('B5', k2, n_ is None or n_ == len(prefix),
+                                      'after `%s.startswith(%r)` the code strips %s characters: the PRAGMA / Disk '
+                                      'attribute name is mangled, so the stored setting is never applied'
+                                      % (var, prefix, n_), f.loc(m), nontrivial=n_ is not None))
     return obs
 
 
@@ -380,7 +409,7 @@ def i1(ctx):
         f = ctx.method(cls, meth)
         ok, why, n, nraise = True, '', 0, 0
         for p in ctx.paths(f, 'plain'):
-            calls = [e for e in p.trace if e.kind == 'CALL' and e.fn is f]
+            calls = [e for e in p.trace if real_call(e)]
             if len(calls) != 1 or calls[0].d['targets'][0].name != callee or calls[0].d['targets'][0].cls != 'Cache':
                 ok, why = False, 'does not make exactly one call to Cache.%s' % callee
                 continue
@@ -415,7 +444,7 @@ def i1(ctx):
         f = ctx.method(cls, meth)
         ok, why, n = True, '', 0
         for p in ctx.paths(f, 'plain'):
-            calls = [e for e in p.trace if e.kind == 'CALL' and e.fn is f]
+            calls = [e for e in p.trace if real_call(e)]
             if len(calls) != 1 or calls[0].d['targets'][0].name != callee or calls[0].d['targets'][0].cls != 'Cache':
                 ok, why = False, 'does not make exactly one call to Cache.%s' % callee
                 continue
@@ -436,7 +465,7 @@ def i1(ctx):
         ok = False
         for p in ctx.paths(f, 'plain'):
             for e in p.trace:
-                if e.kind == 'CALL' and e.fn is f and e.d['targets'][0].name == 'push':
+                if real_call(e) and e.d['targets'][0].name == 'push':
                     ok = _matches(_kw(e, e.d['targets'][0], 'side'), side) and \
                         _matches(_kw(e, e.d['targets'][0], 'value'), '=value')
         obs.append(Ob('I1', 'Deque.%s/side' % meth, ok, 'Deque.%s does not push its value on the %s side' % (meth, side),
@@ -447,7 +476,7 @@ def i1(ctx):
         for p in ctx.paths(f, 'plain'):
             fors = [e for e in p.trace if e.kind == 'FOR' and e.d['it'] == 1]
             for e in p.trace:
-                if e.kind == 'CALL' and e.fn is f and e.d['targets'][0].name == callee and fors:
+                if real_call(e) and e.d['targets'][0].name == callee and fors:
                     a = e.d['args'][0] if e.d['args'] else None
                     ok = a is not None and a.k == 'elem' and a.a[0].k == 'param' and a.a[0].a[0] == 'iterable'
         obs.append(Ob('I1', 'Deque.%s/each-%s' % (meth, callee), ok, 'Deque.%s does not %s every element of the iterable'
@@ -457,7 +486,7 @@ def i1(ctx):
         ok = False
         for p in ctx.paths(f, 'plain'):
             for e in p.trace:
-                if e.kind == 'CALL' and e.fn is f and e.d['targets'][0].name == '_index':
+                if e.kind == 'CALL' and e.d['targets'][0].name == '_index':
                     a = e.d['args']
                     ok = len(a) == 2 and a[0].k == 'param' and a[0].a[0] == 'index' and a[1].k == 'bound' and a[1].a[1] == func
         obs.append(Ob('I1', 'Deque.%s/via-index' % meth, ok, 'Deque.%s does not resolve the position with _index and '
